@@ -1,5 +1,152 @@
-import StraxModel.Model.Basic
+import StraxModel.Lemmas.Align
+/-
+  C08 — plugins see time-aligned inputs and receive each input row exactly once.
+
+  Model: `Strax.Align.iterRun` / `iterModel` (Model/Align.lean), a line-by-line model of
+  `Plugin.iter` + the range check of `Plugin.do_compute`.  `iterRun deps chunks strict` returns
+  the list of `compute` calls and, per dependency, the rows still buffered at the end;
+  `strict` = "saved by default" (`save_when > EXPLICIT`).
+
+  All theorems below are PARTIAL-CORRECTNESS statements over ALL inputs: any number of
+  dependencies and kinds, any chunk lists (law-abiding or not), any number of rows.  The only
+  hypotheses are `chunks.length = deps.length` (one iterator per dependency) and, where a
+  statement talks about time, `StartAt T0 chunks` (all dependencies start at `T0`).
+  "The re-trim loop does not run out of its ten passes" is implied by the hypothesis
+  `… = .ok r` (running out is the `RuntimeError` of D9), see `ok_passes_suffice`.
+
+  Not proved (kept as a comment, see notes/C08.md): totality,
+    converges : (∀ cs ∈ chunks, LawAbiding cs) → StartAt T0 chunks → (all dependencies end together,
+                 same-kind dependencies carry interval-equal rows, no trailing zero-duration chunk)
+                 → passesSufficeB deps chunks strict → ∃ r, iterRun deps chunks strict = .ok r
+  It needs the validity of every intermediate chunk (C07's `split_separates`) and is false
+  without the last hypothesis (`ten_pass_counterexample`).
+-/
 namespace Strax.C08
-open Strax
+open Strax Strax.Align
+
+variable {deps : List Dep} {chunks : List (List Chunk)} {strict : Bool} {r : Result}
+
+/-- every call has one row list and one input range per dependency; every dependency's input chunk
+covers exactly `[start, stop)` of the call; same-kind dependencies hand over equally many rows
+(`Chunk.merge` zips them column-wise). -/
+theorem calls_aligned {T0 : Int} (hlen : chunks.length = deps.length) (hT : StartAt T0 chunks)
+    (h : iterRun deps chunks strict = .ok r) : ∀ c ∈ r.calls, c.Aligned deps :=
+  ((iterRunP_ok hlen h).timing T0 hT).2
+
+/-- the first call starts at `T0`, every next call starts where the previous one ended, and
+there is at least one call. -/
+theorem calls_adjacent {T0 : Int} (hlen : chunks.length = deps.length) (hT : StartAt T0 chunks)
+    (h : iterRun deps chunks strict = .ok r) : r.calls ≠ [] ∧ adjacentFrom T0 r.calls :=
+  ⟨(iterRunP_ok hlen h).nonempty, ((iterRunP_ok hlen h).timing T0 hT).1⟩
+
+/-- list form: per dependency, the rows handed over call after call, followed by the leftover,
+are exactly the rows of that dependency's chunks, in order. -/
+theorem rows_once_in_order_all (hlen : chunks.length = deps.length)
+    (h : iterRun deps chunks strict = .ok r) : handedOver r.calls r.leftover = chunks.map allRows :=
+  (iterRunP_ok hlen h).conserve
+
+/-- for every dependency `i`: the concatenation of the rows handed over in the successive calls,
+followed by the leftover of `i`, is the list of all rows of `i`'s chunks — every row exactly
+once and in the original (time) order. -/
+theorem rows_once_in_order (hlen : chunks.length = deps.length)
+    (h : iterRun deps chunks strict = .ok r) :
+    ∀ i cs, chunks[i]? = some cs →
+      ∃ left, r.leftover[i]? = some left ∧ r.calls.flatMap (fun c => c.rowsOf i) ++ left = allRows cs := by
+  intro i cs hi
+  apply handedOver_index (rows_once_in_order_all hlen h) i (allRows cs)
+  simp [hi]
+
+/-- a plugin that is saved by default never ends normally with rows left in a buffer: every row
+of every dependency was handed to `compute` (exactly once, in order). -/
+theorem saved_plugins_drop_nothing (hlen : chunks.length = deps.length)
+    (h : iterRun deps chunks true = .ok r) :
+    (∀ l ∈ r.leftover, l = []) ∧
+      ∀ i cs, chunks[i]? = some cs → r.calls.flatMap (fun c => c.rowsOf i) = allRows cs := by
+  have hs := (iterRunP_ok hlen h).strictLeft rfl
+  refine ⟨hs, ?_⟩
+  intro i cs hi
+  obtain ⟨left, hl, e⟩ := rows_once_in_order hlen h i cs hi
+  have : left = [] := hs left (List.mem_of_getElem? hl)
+  subst this
+  simpa using e
+
+/-- a successful run has asked every iterator for its `StopIteration`: no chunk is left unfetched
+(either policy).  This is the `for d in iters: if self._fetch_chunk(d, iters): raise` check. -/
+theorem ok_means_exhausted {fin : List DepState} {left : List (List Row)}
+    (h : finish strict fin = .ok left) : ∀ s ∈ fin, s.rem = [] :=
+  (finish_ok h).2.1
+
+/-- no silent drop: for a plugin saved by default, either the run raises or every input row of
+every dependency is handed to `compute`.  (Dependencies that end at different times with rows
+beyond the common part, and rows left over at the end, therefore raise.) -/
+theorem no_silent_drop (hlen : chunks.length = deps.length) :
+    match iterRun deps chunks true with
+    | .error _ => True
+    | .ok r => ∀ i cs, chunks[i]? = some cs → ∀ row ∈ allRows cs, row ∈ r.calls.flatMap (fun c => c.rowsOf i) := by
+  split
+  · trivial
+  · rename_i r h
+    intro i cs hi row hrow
+    rw [(saved_plugins_drop_nothing hlen h).2 i cs hi]
+    exact hrow
+
+/-- for a plugin that is not saved by default the rows that were not handed over are exactly the
+reported leftover — they come after everything that was handed over. -/
+theorem tolerant_drop_is_suffix (hlen : chunks.length = deps.length)
+    (h : iterRun deps chunks false = .ok r) :
+    ∀ i cs, chunks[i]? = some cs →
+      ∃ left, allRows cs = r.calls.flatMap (fun c => c.rowsOf i) ++ left :=
+  fun i cs hi => by
+    obtain ⟨left, _, e⟩ := rows_once_in_order hlen h i cs hi
+    exact ⟨left, e.symm⟩
+
+/-- an `ok` result means the re-trim loop never ran out of its ten passes: giving it more passes
+yields the same result.  This is why the theorems above need no `StaggerDepth ≤ 10` hypothesis. -/
+theorem ok_passes_suffice (h : iterRun deps chunks strict = .ok r) (k : Nat) :
+    iterRunP (maxPasses + k) deps chunks strict = .ok r :=
+  iterRunP_mono k h
+
+/-- D9 in small (C08 is NOT violated: an error is raised, nothing is dropped; C01's totality is):
+brick-pattern rows of two kinds, both chunkings law-abiding, both starting at 0 and ending at 13;
+the code gives up with `RuntimeError` after ten passes … -/
+theorem ten_pass_counterexample :
+    LawAbiding brickA ∧ LawAbiding brickB ∧ StartAt 0 [brickA, brickB] ∧
+      iterModel witnessDeps [brickA, brickB] true = .error .runtimeError ∧
+      iterModel witnessDeps [brickA, brickB] false = .error .runtimeError := by
+  decide +kernel
+
+/-- … although four more passes would have delivered every row in two aligned, adjacent calls. -/
+theorem ten_pass_would_converge :
+    passesSufficeB witnessDeps [brickA, brickB] true = false ∧
+      (iterRunP 14 witnessDeps [brickA, brickB] true).toOption.map (fun r => r.calls.map (fun c => (c.start, c.stop)))
+        = some [(0, 0), (0, 13)] := by
+  decide +kernel
+
+/-! ### non-vacuity: concrete non-trivial instances of the hypotheses and of an `ok` run -/
+
+example : LawAbiding plainA ∧ LawAbiding plainB ∧ StartAt 0 [plainA, plainB] ∧
+    [plainA, plainB].length = witnessDeps.length := by decide +kernel
+
+/-- strict policy, a row of `b` straddles the chunk boundary of `a`: two calls, everything delivered -/
+example :
+    (iterRun witnessDeps [plainA, plainB] true).toOption.map (fun r => r.calls.map (fun c => (c.start, c.stop)))
+      = some [(0, 0), (0, 10)] ∧
+    (iterRun witnessDeps [plainA, plainB] true).toOption.map (fun r => r.calls.map (fun c => c.rows.map ids))
+      = some [[[], []], [[0, 1, 2], [0, 1]]] ∧
+    (iterRun witnessDeps [plainA, plainB] true).toOption.map (fun r => r.leftover.map ids) = some [[], []] := by
+  decide +kernel
+
+/-- dependencies ending at different times with a row beyond the common part: strict raises … -/
+example : iterModel witnessDeps [plainA, longB] true = .error .runtimeError := by decide +kernel
+/-- … the tolerant policy ends normally and reports the undelivered row as leftover -/
+example : (iterRun witnessDeps [plainA, longB] false).toOption.map (fun r => r.leftover.map ids)
+    = some [[], [2]] := by decide +kernel
+/-- dependencies ending at different times WITHOUT rows beyond the common part: nothing to drop,
+no error — the last call ends at 10 although `b`'s last chunk ends at 14 (so "the last call ends
+at the run end" is not a theorem about this code, and is not part of C08's wording). -/
+example :
+    (iterRun witnessDeps [plainA, longEmptyB] true).toOption.map (fun r => lastStop 0 r.calls) = some 10 ∧
+    (iterRun witnessDeps [plainA, longEmptyB] true).toOption.map (fun r => r.leftover.map ids) = some [[], []] := by
+  decide +kernel
 
 end Strax.C08
